@@ -177,6 +177,22 @@ class Notes:
             r_cursor.inst(f"{bf.qual}: carried cursors")
         ps = bf.params()
         kwc = dict(self.builder_call[3])
+        # the builder receives the track's own phrase list and the tempo map handed to from_chart_lines
+        tf, tsum = self.track_fcl, self.track_fcl_s
+        for e_ in tsum.rets():
+            v_ = e_.value
+            if v_[0] == "call" and v_[1][0] in ("clsparam", "class"):
+                tk = dict(v_[3])
+                for p_ in ps:
+                    t_ = ctx.ev.types.param_type(bf, p_)
+                    a_ = kwc.get(p_)
+                    if t_ == ("seq", ("inst", "chartparse.instrument.StarPowerEvent")) and strip(a_) != strip(tk.get("star_power_events")):
+                        fail(rc, ctx, tf, e_.node, "the note builder must receive the very star-power list stored on the track (built from this "
+                                                   f"section's S lines); it receives {show(a_)[:120] if a_ else None}")
+                    if t_ == ("inst", "chartparse.sync.BPMEvents"):
+                        tparams = [q_ for q_ in tf.params() if ctx.ev.types.param_type(tf, q_) == ("inst", "chartparse.sync.BPMEvents")]
+                        if not tparams or a_ != ("param", tparams[0]):
+                            fail(rc, ctx, tf, e_.node, f"the note builder must receive the tempo map handed to the track; it receives {show(a_)[:120] if a_ else None}")
         # which parameter holds the note data: the one bound to component 0 of the parse result
         datas = None
         for p in ps:
